@@ -36,7 +36,8 @@ def cases(tier, seed):
     for i in range(n):
         yield dict(n=rnd.choice([2, 2, 3, 4, 6, 8]), shared=rnd.random() < 0.5,
                    policy=rnd.choice(['uniform', 'rr', 'starve']), fine=rnd.random() < 0.5,
-                   disturb=rnd.choice([0, 0, 1, 2]), seed=seed * 100003 + i)
+                   disturb=rnd.choice([0, 0, 1, 2]), silent=rnd.random() < 0.25,
+                   seed=seed * 100003 + i)
 
 
 _base_cases = cases
@@ -89,6 +90,7 @@ def run_case(case):
                     park_prob=0.25, park_max=0.1,
                     funcs={'copy_context_def_list', 'update_context_def_list',
                            '_build_context_def_list', 'add_scu', '_new_msg_id'},
+                    files=('applicationentity.py', '__init__.py'),
                     opcode_funcs={'copy_context_def_list', 'update_context_def_list',
                                   '_new_msg_id'})
             else:
@@ -201,7 +203,7 @@ def run_case(case):
         def client(c):
             plan = plans[c]
             res = results[c] = dict(sent=[], status=[], finds=[], msgids=[], exc=None,
-                                    neg=None, done=False)
+                                    neg=None, done=False, t0=sim.now)
             try:
                 if shared is not None:
                     ae = shared
@@ -293,6 +295,20 @@ def run_case(case):
                 import traceback
                 res['exc'] = e
                 res['tb'] = traceback.format_exc()
+            finally:
+                res['took'] = sim.now - res['t0']
+        if case.get('silent'):
+            # one more connection to the server that never sends anything (a port scanner, a
+            # peer that hangs): it is nobody's business but its own
+            def silent_peer():
+                sk = world.net.socket()
+                try:
+                    sk.connect(ADDR)
+                except OSError:
+                    return
+                sim.wait(lambda: False, 3000.0, 'peer-idle')
+            world.spawn(silent_peer, 'silent', role='peer')
+            sim.run_for(0.2)
         for c in range(n):
             world.spawn(lambda c=c: client(c), 'client%d' % c)
         cfg = {}
@@ -428,6 +444,13 @@ def run_case(case):
                           len(cfg['proposed']), miss))
             elif 'exc' in cfg:
                 v('association-after-reconfiguration-failed', repr(cfg['exc']))
+        if case.get('silent'):
+            slow = [(c, round(results[c].get('took', -1), 1)) for c in sorted(results)
+                    if results[c].get('took', 0) > 120.0 or 'took' not in results[c]]
+            if slow:
+                v('associations-held-up-by-a-silent-connection',
+                  'clients (number, virtual seconds taken) %r; a connection that never sent '
+                  'anything was open meanwhile' % (slow,))
         for c in sorted(results):
             if results[c].get('stale'):
                 v('association-proposal-misses-class-configured-earlier',
